@@ -155,6 +155,16 @@ impl<R> PMTiles<R> {
     }
 }
 
+#[cfg(feature = "verif")]
+impl<R> PMTiles<R> {
+    /// (verification hook, read-only) `(ids, stored contents, reference sets, total references)`
+    /// of the in-memory tile store.
+    #[doc(hidden)]
+    pub fn verif_store_counts(&self) -> (usize, usize, usize, usize) {
+        self.tile_manager.verif_store_counts()
+    }
+}
+
 impl<R: Read + Seek> PMTiles<R> {
     /// Get data of a tile by its id.
     ///
